@@ -92,7 +92,7 @@ func makeCase(phase string, i int) *copymon.Case {
 		c.Conc = []int{1, 3}[i%2]
 	}
 	c.Mount = ""
-	if c.DstKind == "remote" && i%3 == 0 {
+	if c.DstKind == "remote" && i%3 != 1 {
 		c.Mount = []string{"ok", "refuse"}[(i/3)%2]
 		if c.Profile != nil {
 			c.Profile.MountOK = c.Mount == "ok"
@@ -162,6 +162,15 @@ func executeSlow(ctx context.Context, res *worker.Result, c *copymon.Case, fault
 		res.Count("fault_not_reached", 1)
 	} else {
 		res.Count("faults_hit", int64(len(hits)))
+		for _, f := range hits {
+			if strings.HasPrefix(f.Point, "dst.Mount:") {
+				pos := "first"
+				if j := strings.LastIndex(f.Point, "#"); j > 0 && f.Point[j+1:] != "0" {
+					pos = "later"
+				}
+				res.Count(fmt.Sprintf("mount_faults_hit_%s_candidate_of_%d", pos, len(c.MountCands)), 1)
+			}
+		}
 	}
 	// (a) closure at push completion, (b) closure at quiescence
 	if len(e.Mon.Closure) > 0 {
@@ -362,8 +371,25 @@ func runCase(phase string, i int) worker.Result {
 				op = "src.Fetch" // the filter's own read of a predecessor manifest
 			}
 		}
+		ord := 0
+		if c.Mount != "" && rng.IntN(2) == 0 {
+			// the mount path: a fault on any of the candidate repositories, not only the first
+			var blobs []int
+			for _, x := range nodes {
+				if !c.G.Nodes[x].Kind.IsManifestKind() {
+					blobs = append(blobs, x)
+				}
+			}
+			if len(blobs) > 0 {
+				op = []string{"dst.Mount", "dst.Mount", "cb.MountFrom", "cb.OnMounted"}[rng.IntN(4)]
+				n = blobs[rng.IntN(len(blobs))]
+				if op == "dst.Mount" && len(c.MountCands) > 1 {
+					ord = rng.IntN(len(c.MountCands))
+				}
+			}
+		}
 		kind := []string{"error", "error", "cancel", "cancel-silent"}[rng.IntN(4)]
-		faults = append(faults, faultSpec{fmt.Sprintf("%s:%d#0", op, n), kind})
+		faults = append(faults, faultSpec{fmt.Sprintf("%s:%d#%d", op, n, ord), kind})
 	}
 	res.Restart = execute(ctx, &res, c, faults, "multi")
 	res.Evals = 1
